@@ -38,6 +38,22 @@ def mon_reorg(h, obs):
     """the hash link and the chain meta, read back from the store after every block (the harness compares the parent hash of
     block h with the hash of the stored block h-1, and the chain meta with block h)"""
     hits = []
+    # the stored interchain meta of a block names transactions of THAT block: positions inside it, of interchain transactions
+    # that were accepted
+    for st in mon_exec.parse_trace(h, obs):
+        if st[0] == "block" and st[1].ok:
+            b = st[1]
+            for dest, entries in b.counter.items():
+                for e in entries:
+                    i = e[0]
+                    if i >= len(b.txs) or i >= len(b.rcs) or b.txs[i].kind != "ibtp" or not b.rcs[i].ok:
+                        hits.append(Hit("C09/interchain-meta-lists-what-the-block-does-not-hold",
+                                        f"block {b.h} has {len(b.txs)} transactions but its stored interchain meta lists position {i} for {dest}", detail=b.op))
+                        break
+                if hits:
+                    break
+        if hits:
+            break
     for op, o in zip(h.ops, obs):
         if op.split()[0] in ("block", "reorg"):
             m = re.search(r" plink=(\S+)", o)
